@@ -112,7 +112,7 @@ EXTRA = {
  "C19": " Thorough: independent TLA+ model of the tabular Islamic calendar (models/Hijri.tla, 30-year cycle table) enumerated by TLC over six 40-year windows, all 85 049 dumped states replayed; Gauss's Easter algorithm as a third formulation (models/Easter.tla), all 14 713 years enumerated by TLC and replayed; the traditional molad / dehiyyot rules (models/Pesach.tla), all 3 000 years enumerated and replayed.",
  "C17": " Input forms incl. re-used objects, a copy whose source is re-loaded, and lists overwritten by the caller, for linear, quadratic and general fits.",
  "C18": " Histories of ONE Earth object set() through all sequences of 2-3 (4) of the 5 ellipsoids, 26 views compared with a fresh object.",
- "C20": " Further clauses: reused_arguments (caller changes an argument object in place between two calls), near_arguments (previous call with almost the same arguments), dense_domains (43 single-parameter sweeps on arithmetic grids with fractional steps, 95 313 calls), object_reset (construct / set histories of 4 classes against fresh objects), probes whose documented ValueError must be raised.",
+ "C20": " Further clauses: reused_arguments (caller changes an argument object in place between two calls), near_arguments (previous call with almost the same arguments), dense_domains (43 single-parameter sweeps on arithmetic grids with fractional steps, 95 313 calls), object_reset (construct / set histories of 4 classes against fresh objects), probes whose documented ValueError must be raised, representation_forms (number vs Angle arguments), out-of-range strings derived from the documented spellings.",
 }
 
 NOT_YET = {}
